@@ -467,6 +467,15 @@ parse_next_record_header:
                 }
                 /* All other non-zero return value results in reply message.
                  * Either handshake message or alert */
+                if (rc != SSL_ENCODE_RESPONSE && ssl->err == SSL_ALERT_NONE)
+                {
+                    /* A failure that did not choose an alert (PS_MEM_FAIL
+                       from a key derivation, a parse failure...) is not
+                       "a handshake response is due": without this the
+                       message was dropped silently and the handshake
+                       stalled in an undefined state. */
+                    ssl->err = SSL_ALERT_INTERNAL_ERROR;
+                }
                 goto encodeResponse;
             }
 	    /* If we got a parse return of >= 0 but p did not move forward,
